@@ -1,3 +1,4 @@
+import Proofs.Functor
 import Proofs.Linear
 import Proofs.Outer
 import Proofs.Ring
@@ -87,5 +88,22 @@ theorem executable_outermorphism_is_omap (Cs Cd : Model.Ctx) (M : Array (Array R
 /-- non-vacuity: a 2×2 example of the adjoint identity over ℤ -/
 example : (!![1, 2; 3, 4] *ᵥ ![1, 0]) ⬝ᵥ ![0, 1] = ![1, 0] ⬝ᵥ ((!![1, 2; 3, 4] : Matrix (Fin 2) (Fin 2) ℤ)ᵀ *ᵥ ![0, 1]) :=
   adjoint_dot _ _ _
+
+
+/-! ### the canonical definition: the outermorphism is the exterior-algebra functor
+
+With the zero signature the model is Mathlib's exterior algebra of `R^n` (C01, C02).  For a linear map `L : R^m → R^d`, `Cl.omapHom L` is the
+coded outermorphism (`omap` with the images of the basis vectors as columns; it is an algebra homomorphism for the outer product), and it
+equals `CliffordAlgebra.map L` — Mathlib's `Λ(L)`, defined by the universal property — under the two isomorphisms. -/
+section Functor
+variable {R : Type} [CommRing R]
+
+theorem outermorphism_on_vectors {m d : Nat} (L : (Fin m → R) →ₗ[R] (Fin d → R)) (v : Fin m → R) :
+    Cl.omapHom L (Cl.vec v : Cl m (Cl.Z (R := R) m)) = (Cl.vec (L v) : Cl d (Cl.Z (R := R) d)) := Cl.omapHom_vec L v
+
+theorem outermorphism_is_exterior_functor {m d : Nat} (L : (Fin m → R) →ₗ[R] (Fin d → R)) (x : CliffordAlgebra (Cl.Q m (Cl.Z (R := R) m))) :
+    Cl.fromMathlib (CliffordAlgebra.map (Cl.zeroIsometry L) x) = Cl.omapHom L (Cl.fromMathlib x) := Cl.fromMathlib_map L x
+
+end Functor
 
 end C11
